@@ -316,14 +316,13 @@ def audit(prop):
         for i, line in enumerate(strip_lean_comments(open(p).read()).splitlines(), 1):
             if FORBIDDEN.search(line):
                 res["problems"].append("forbidden token in %s:%d: %s" % (m, i, line.strip()[:80]))
-    pin_file = os.path.join(LEAN_DIR, "theorems.json")
-    pins = json.load(open(pin_file)) if os.path.exists(pin_file) else {}
+    pin_file = os.path.join(LEAN_DIR, "pins", prop + ".json")
     mine = {t["thm"]: sha(t["stmt"])[:16] for t in thms}
     if os.environ.get("VERIF_PIN") == "1":
-        pins[prop] = mine
+        ensure_dir(os.path.dirname(pin_file))
         with open(pin_file, "w") as fh:
-            json.dump(pins, fh, indent=1, sort_keys=True)
-    want = pins.get(prop)
+            json.dump(mine, fh, indent=1, sort_keys=True)
+    want = json.load(open(pin_file)) if os.path.exists(pin_file) else None
     if want is None:
         res["problems"].append("no pinned theorem list for " + prop + " (run with VERIF_PIN=1)")
     else:
